@@ -488,6 +488,10 @@ func runC10(c *fw.Case) {
 		}},
 		{"Eval of an unknown column onto itself", "Eval", func() qframe.QFrame { return qf.Eval("nope", qframe.Val(types.ColumnName("nope"))) }},
 		{"Copy to illegal name", "Copy", func() qframe.QFrame { return qf.Copy("$x", iC) }},
+		{"Copy to a quoted name with the quote character inside", "Copy", func() qframe.QFrame { return qf.Copy("'it's'", iC) }},
+		{"WithRowNums with a quoted name with the quote character inside", "WithRowNums", func() qframe.QFrame { return qf.WithRowNums("\"a\"b\"") }},
+		{"Apply to a destination made of three quotes", "Apply", func() qframe.QFrame { return qf.Apply(qframe.Instruction{Fn: 1, DstCol: "'" + "''"}) }},
+		{"Eval to a quoted destination with quotes inside", "Eval", func() qframe.QFrame { return qf.Eval("\"say \"hi\"\"", qframe.Val(1)) }},
 		{"Distinct on unknown column", "Distinct", func() qframe.QFrame { return qf.Distinct(groupby.Columns("nope")) }},
 		{"GroupBy on unknown column", "Aggregate", func() qframe.QFrame {
 			return qf.GroupBy(groupby.Columns("nope")).Aggregate(qframe.Aggregation{Fn: "sum", Column: iC})
